@@ -264,6 +264,41 @@ def run(ctx):
     ff = SEED + "WalletSeed::from_file"
     c.require_pass(ctx, R4, ff, dc, ("okret",), "WalletSeed::from_file Ok requires decrypt Ok")
 
+    # "only with the password it was last saved under": the key is derived from the whole password, in both directions.
+    # The secret handed to pbkdf2::derive is password.as_bytes() itself: no slice, truncation, trimming or case folding in
+    # between (seed C12m: `[..len.min(64)]` - any password sharing the first 64 bytes opens the file)
+    for fid_ in (SEED + "EncryptedWalletSeed::from_seed", dc):
+        fk = ctx.fn(fid_)
+        if fk is None:
+            run.error("C12.R4: %s not found" % fid_)
+            continue
+        kd_ = cfg.find_calls(fk, "ring::pbkdf2::derive")
+        pw = c.param(fk, "password", "&str")
+        held = len(kd_) == 1 and pw is not None
+        why = ""
+        if held:
+            o_ = kd_[0][1]["a"][3]
+            chain = []
+            for _ in range(8):
+                pr = vf.producers(fk, o_)
+                calls = [x for x in pr if x[0] == "call"]
+                if not calls:
+                    held = any(x[0] == "arg" and x[1] == pw for x in pr)
+                    chain.append("password" if held else "?%s" % sorted(map(str, pr))[:3])
+                    break
+                if len(calls) != 1 or not calls[0][1].endswith(("::as_bytes", "Deref::deref", "AsRef::as_ref", "String::as_str")):
+                    held = False
+                    chain.append("?" + (calls[0][1].split("::")[-1] if calls else ""))
+                    break
+                chain.append(calls[0][1].split("::")[-1])
+                o_ = fk.bbs[calls[0][2]]["t"]["a"][0]
+            else:
+                held = False
+            why = " <- ".join(chain)
+        run.instance(R4, {"fn": pp.short(fid_), "obligation": "the secret given to pbkdf2::derive is the whole password (as_bytes of the parameter, nothing in between)", "chain": why}, held=held)
+        if not held:
+            run.finding(Finding(R4, fid_, "the seed file's key is not derived from the whole password: a different password that agrees on the part used opens the seed", site=fk.loc(), detail=why))
+
     R5 = "C12.R5"
     run.rule(R5, "interruption-safe password change / recovery: backup before delete/create; backup removed only after verification", floor=5)
     cp = DLC + "change_password"
